@@ -32,7 +32,7 @@ ID = "C06"
 LEVEL = "exploration"
 RULE = ("cases = random programs in three flavours (static; overlapping Union / Intersection members; Literal / "
         "Dependent) x 12-30 calls x configurations: <= 6 registration orders, 6 forced iteration orders, 3 sets of "
-        "added inapplicable (near-miss) methods; plus, per shard, 8 (thorough: 40) programs re-run unpinned in 4 sub-processes "
+        "added inapplicable (near-miss) methods; plus 128 (thorough: 640) programs re-run unpinned in 4 sub-processes "
         "(hash seeds 0/1/2/random, garbage + class-creation-order perturbation, plain re-run); distinct_nontrivial = "
         "distinct programs that have >= 2 applicable methods for some call and were run under >= 8 configurations")
 ASSUMPTIONS = [
@@ -47,7 +47,7 @@ REPORT_COUNTERS = ["programs", "configs_run", "vector_comparisons", "cfg_registr
 
 def plan(tier):
     n = 960 if tier == "quick" else 24000
-    return {"cases": n, "params": {"sub": 8 if tier == "quick" else 40}, "timeout_s": 1500 if tier == "quick" else 7200,
+    return {"cases": n, "params": {"sub": 128 if tier == "quick" else 640}, "timeout_s": 1500 if tier == "quick" else 7200,
             "min": {"configs_run": 5_000, "cfg_iteration_order": 1_500, "cfg_registration_order": 1_000,
                     "cfg_added_inapplicable": 1_000, "cfg_subprocess": 200, "programs_multi_applicable": 200}}
 
@@ -82,9 +82,12 @@ def gen_case(rng, params, idx):
     if idx % 4 == 3:
         return _gen_ties(rng)
     flavour = ["static", "union", "dep"][idx % 3]
-    hier = gen.gen_hierarchy(rng, rng.randint(3, 6), attrs=False, p_multi=0.5)
+    hier = gen.gen_hierarchy(rng, rng.randint(3, 6), attrs=(flavour == "static"), p_multi=0.5)
     names = [s["name"] for s in hier]
     pool = names + ["object"]
+    if flavour == "static" and rng.random() < 0.5:
+        # protocols / ABCs that are mutual (virtual) subclasses of each other or of object
+        pool = pool + ["HasFly", "HasFly2", "Hashable"]
     npos = rng.choice([1, 2, 2])
 
     def gtype():
@@ -238,8 +241,8 @@ def _asymmetric_pairs(spec, env):
             except Exception:  # noqa: BLE001
                 n += 1
                 continue
-            if o1 is not o2.opposite():
-                n += 1          # not mirror-symmetric
+            if o1 is not o2.opposite() and hasattr(a, "__type_order__") and hasattr(b, "__type_order__"):
+                n += 1          # not mirror-symmetric, and both operands carry their own ordering rule (F8's mechanism)
             if o1 is Order.LESS:
                 deps[k].add(i)
             elif o1 is Order.MORE:
@@ -247,7 +250,8 @@ def _asymmetric_pairs(spec, env):
         try:
             TopologicalSorter(deps).prepare()
         except CycleError:
-            n += 1              # symmetric pairwise but cyclic: not a partial order
+            if any(hasattr(t, "__type_order__") for t in ts):
+                n += 1          # symmetric pairwise but cyclic: not a partial order
     return n
 
 
@@ -429,7 +433,7 @@ def check_case(spec, res):  # noqa: F811
     batch = res.__dict__.setdefault("_c06_batch", [])
     limit = res.__dict__.setdefault("_c06_limit", None)
     if limit is None:
-        limit = res._c06_limit = plan(os.environ.get("VF_TIER", "quick"))["params"]["sub"]
+        limit = res._c06_limit = -(-plan(os.environ.get("VF_TIER", "quick"))["params"]["sub"] // int(os.environ.get("VF_NSHARDS", "16")))
     if len(batch) < limit and len(spec["methods"]) <= 6:
         batch.append({k: spec[k] for k in ("hier", "methods", "npos", "flavour", "calls")})
     _orig_check_case(spec, res)
